@@ -271,7 +271,7 @@ def main():
         deviation_bound_requested=max([r['max_dev'] for r in results] + [0]),
         deadline_hit=any(r['deadline_hit'] for r in results),
         per_variant=[dict(variant=r['variant'], executions=r['executions'], states=r['states'], aux=r.get('aux', 0), transitions=r['transitions'], distinct_outcomes=r['distinct_outcomes'],
-                          distinct_nontrivial=r['distinct_nontrivial'], wall_s=r['wall_s'], worker_restarts=r['restarts'], deadline_hit=r['deadline_hit']) for r in results],
+                          distinct_nontrivial=r['distinct_nontrivial'], wall_s=r['wall_s'], worker_restarts=r['restarts'], spurious_stalls_retried=r.get('spurious_stalls', 0), deadline_hit=r['deadline_hit']) for r in results],
         known_findings_matched={k: len(v) for k, v in known_hits.items()},
         stale_known_finding_patterns=stale,
         violation_signatures=len(bysig),
